@@ -40,7 +40,7 @@ CONSTANTS MaxLen,        \* history length bound (closing exits beyond it are fr
 \* probe program -> the feature it uses ("none": control program without gated features)
 ProgFeature ==
     [list_lit  |-> "Lists",  list_comp |-> "Lists", list_type |-> "Lists",
-     tensor    |-> "Function tensors",
+     tensor    |-> "Function tensors",  tensor_syn |-> "Function tensors",
      closure   |-> "Capturing closures",
      modifier  |-> "Modifiers",
      plain     |-> "none"]
